@@ -9,19 +9,20 @@ Import ListNotations.
 Open Scope Z_scope.
 
 (* tree_conserves.  For every profile (any number of sample types, samples, stack depths, recursive
-   and shared frames -- a stack is any list of function ids), every sample type k, and every hash h
+   and shared frames -- a stack is any list of function ids, a sample without locations is kept as one
+   "n/a" frame: stored_tree = post_process on the normalized samples), every sample type k, and every hash h
    under which the node id determines the parent on the (parent, function, depth) triples that occur:
    the stored rows have distinct non-zero ids, each node's total equals its self value plus the totals
-   of the rows naming it as parent, and the rows under the root add up to the weight of the samples
-   that have at least one frame. *)
-Theorem tree_conserves : forall (h : N -> N -> N) (nt : nat) (ss : list sample) (k : nat),
-  (k < nt)%nat -> parent_determined h (triples h ss) ->
-  let t := post_process h nt ss in
+   of the rows naming it as parent, and the rows under the root add up to the sum of ALL the profile's
+   sample values. *)
+Theorem tree_conserves : forall (h : N -> N -> N) (na : N) (nt : nat) (ss : list sample) (k : nat),
+  (k < nt)%nat -> parent_determined h (triples h (normalize na ss)) ->
+  let t := stored_tree h na nt ss in
   NoDup (map n_id t) /\
   (forall n, In n t -> n_id n <> 0%N /\ length (n_vals n) = nt) /\
   (forall n, In n t -> snd (val_at k n) = wrap64 (fst (val_at k n) + child_tot k t (n_id n))) /\
-  wrap64 (child_tot k t 0%N) = wrap64 (weight k ss).
-Proof. exact post_process_conserves. Qed.
+  wrap64 (child_tot k t 0%N) = wrap64 (full_weight k ss).
+Proof. exact stored_tree_conserves. Qed.
 Print Assumptions tree_conserves.
 
 (* What the stored numbers are, for EVERY hash (no hypothesis): a row's total is the sum over the
@@ -54,21 +55,18 @@ Example tree_conserves_applies : parent_determined city16 (triples city16 ex_pro
   length (post_process city16 2 ex_profile) = 6%nat /\ (forall s, In s ex_profile -> s_stack s <> []).
 Proof. exact ex_profile_hypotheses. Qed.
 
-(* The root sum against ALL samples of the profile (the literal statement) fails: a sample without
-   frames carries weight that no node receives. *)
-Theorem root_sum_refuted : exists (h : N -> N -> N) (nt : nat) (ss : list sample) (k : nat),
-  (k < nt)%nat /\ parent_determined h (triples h ss) /\
-  wrap64 (child_tot k (post_process h nt ss) 0%N) <> wrap64 (full_weight k ss).
-Proof. exact root_sum_refuted_proof. Qed.
-Print Assumptions root_sum_refuted.
+(* no sample value negative and values x stack depths within int64: every stored self and total is
+   non-negative, self <= total, and both are the exact sums (no wrap-around) -- for every hash *)
+Theorem stored_values_nonneg : forall (h : N -> N -> N) (nt : nat) (ss : list sample) (k : nat) (n : node),
+  (k < nt)%nat -> (forall s, In s ss -> 0 <= nth k (s_values s) 0) ->
+  sumZ (map (fun s => nth k (s_values s) 0 * Z.of_nat (length (s_stack s))) ss) < two63 ->
+  In n (post_process h nt ss) ->
+  0 <= fst (val_at k n) <= snd (val_at k n) /\
+  snd (val_at k n) = sumZ (map (fun s => nth k (s_values s) 0 * cnt (n_id n) (sample_ids h s)) ss) /\
+  fst (val_at k n) = sumZ (map (fun s => nth k (s_values s) 0 * leaf_cnt (n_id n) (sample_ids h s)) ss).
+Proof. exact PprofProofs.stored_values_nonneg. Qed.
+Print Assumptions stored_values_nonneg.
 
-(* ... and holds when every sample has at least one frame *)
-Theorem root_sum_partial : forall (h : N -> N -> N) (nt : nat) (ss : list sample) (k : nat),
-  (k < nt)%nat -> parent_determined h (triples h ss) ->
-  (forall s, In s ss -> s_stack s <> []) ->
-  wrap64 (child_tot k (post_process h nt ss) 0%N) = wrap64 (full_weight k ss).
-Proof. exact root_sum_partial_proof. Qed.
-Print Assumptions root_sum_partial.
 (* since the fix of defect 10 a request emits its ProfileData exactly once, over-size or not *)
 Theorem profile_emitted_once : forall (A : Type) (over : bool) (pd : A), emitted over pd = [pd].
 Proof. exact @emitted_once. Qed.
@@ -117,9 +115,9 @@ Print Assumptions merge_is_sum_refuted.
    lacking it), taken in any order: the merged tree conserves (additive form: for every id x <> 0 the
    totals of the nodes with id x = their self values + the totals of the nodes whose parent is x) and
    the nodes under the root add up to the sum of the profiles' weights. *)
-Theorem merged_tree_conserves : forall (h : N -> N -> N) (limit : Z) (Ps : list stored) (rows : list row) (fs : list (N * Z)),
-  Forall (stored_ok h) Ps ->
-  Permutation rows (concat (map (stored_rows h) Ps)) ->
+Theorem merged_tree_conserves : forall (h : N -> N -> N) (na : N) (limit : Z) (Ps : list stored) (rows : list row) (fs : list (N * Z)),
+  Forall (stored_ok h na) Ps ->
+  Permutation rows (concat (map (stored_rows h na) Ps)) ->
   Z.of_nat (length rows) <= limit ->
   let out := rows_of (m_nodes (merge_trie limit new_tree rows fs)) in
   rconserves out /\ eqm (rchild_tot out 0%N) (sumZ (map stored_weight Ps)).
